@@ -8,7 +8,7 @@ from .core import AnalysisIncomplete, norm_text, u
 
 VERIF = os.path.dirname(os.path.dirname(os.path.abspath(__file__)))
 KNOWN_FILE = os.path.join(VERIF, 'known_findings.txt')
-EVIDENCE_DIR = os.path.join(VERIF, 'evidence')
+EVIDENCE_DIR = os.environ.get('VERIF_EVIDENCE_DIR') or os.path.join(VERIF, 'evidence')
 
 
 def load_known():
@@ -190,7 +190,7 @@ class Checker:
             for v in self.violations:
                 digest = hashlib.sha256(v['key'].encode()).hexdigest()[:12]
                 rel = 'evidence/violations/%s-%s.json' % (self.pid, digest)
-                with open(os.path.join(VERIF, rel), 'w') as f:
+                with open(os.path.join(vdir, '%s-%s.json' % (self.pid, digest)), 'w') as f:
                     json.dump({'property': self.pid, 'tier': self.tier,
                                'violation': v}, f, indent=1, default=str)
                 print('  %s rule=%s function=%s' % (
